@@ -278,7 +278,8 @@ class SAND(AbstractApplication):
         ''' Use discovered routes.
         '''
         eid = ctr.bundle.primary.destination
-        if eid in self._one_hop:
+        # a neighbor may be known without any usable CL route
+        if eid in self._one_hop and self._one_hop[eid].tx_routes:
             ctr.route = self._one_hop[eid].tx_routes[0]
             LOGGER.debug('Setting one-hop neighbor route to %s as %s', eid, ctr.route)
 
